@@ -1,7 +1,7 @@
 #!/bin/bash
 # runs every check of MANIFEST.json (quick or thorough) sequentially; prints exit code and wall time per property
 TIER=${1:-quick}
-cd /verif
+cd "$(dirname "$0")/.."
 for p in $(python3 -c "import json;print(' '.join(c['property_id'] for c in json.load(open('MANIFEST.json'))['checks']))"); do
   s=$(date +%s)
   timeout ${2:-2400} ./check $p $TIER > out/run_$p.$TIER.log 2>&1; rc=$?
